@@ -38,6 +38,18 @@ PROPS = {
         "assumptions": COMMON_ASSUME,
         "exhaustive_notes": ["boundary grid: sizes {0..=9,16,255,256,4096} x endian x every accessor (positional and stream) x addresses {0..=size+8} u huge set x read_bytes/write_bytes length grid"],
     },
+    "C06": {
+        "quick": [L("checked", 1.0), L("wrapping", 0.25)],
+        "thorough": [L("checked", 1.0), L("wrapping", 0.25), L("asan", 0.05), L("memcheck", 0.002, workers=8), L("miri", 0.00002, workers=8, mode="legacy_only")],
+        "assumptions": COMMON_ASSUME + ["Miri cannot run the UTF-16 decode path (encoding_rs 0.8.24 uses mem::uninitialized there); that path is covered by the checked/wrapping/ASan/memcheck lanes only"],
+        "exhaustive_notes": ["every BMP scalar value except NUL and surrogates as a one-character message and as the first character of a two-character message (UTF-16 format)", "every message length 0..=8 x title length 0..=9 x format x endian"],
+    },
+    "C07": {
+        "quick": [L("checked", 1.0)],
+        "thorough": [L("checked", 1.0), L("wrapping", 0.1), L("miri", 0.00002, workers=8)],
+        "assumptions": COMMON_ASSUME,
+        "exhaustive_notes": ["every history of length <=4 (quick) / <=5 (thorough) over 18 operations on keys {a,b,c} x values {x, backslash-n, LF, backslash+LF}"],
+    },
     "C02": {
         "quick": [L("checked", 1.0), L("wrapping", 0.25), L("checked", 1.0, mode="det", replicas=8)],
         "thorough": [L("checked", 1.0), L("wrapping", 0.25), L("checked", 1.0, mode="det", replicas=16),
